@@ -21,6 +21,10 @@ OP_TYPE = "verif-op"
 SOURCE = "verif-source"
 
 
+# injected faults that actually fired in the current run: (kind, task key, virtual time); cleared by the check before a run
+FIRED = []
+
+
 class Hosts:
     def __init__(self):
         self.all_hosts = {"default": [{"host": "127.0.0.1", "port": 9200}]}
@@ -72,6 +76,7 @@ def setup():
             if self._limit is not None and self._k >= self._limit:
                 raise StopIteration()
             if self.fail_at is not None and self._k == self.fail_at:
+                FIRED.append(("source-raises", self._params.get("task-key"), CLOCK.now))
                 raise RuntimeError("injected parameter source failure")
             d = dict(self._params)
             d["k"] = self._k
@@ -84,6 +89,7 @@ def setup():
         ci = params["client-index-in-task"]
         pre, post, wire = params.get("pre", 0), params.get("post", 0), params.get("wire", 1)
         if params.get("runner-fails-at") == k:
+            FIRED.append(("runner-raises", params.get("task-key"), CLOCK.now))
             raise RuntimeError("injected runner failure")
         if pre:
             await asyncio.sleep(pre)
@@ -96,6 +102,7 @@ def setup():
         out = {"weight": params.get("weight", 1), "unit": params.get("unit", "ops")}
         uns = params.get("unsuccessful-at")
         if uns is not None and k in uns:
+            FIRED.append(("unsuccessful", params.get("task-key"), CLOCK.now))
             out["success"] = False
         if params.get("runner-throughput") is not None:
             out["throughput"] = params["runner-throughput"]
